@@ -284,10 +284,10 @@ def run(ctx):
     pt = install(ctx, st)
     ctx.enable_disturb(pt, 0.01)     # other legitimate library calls interleaved between cases (vf.gen.disturb)
     rng = ctx.rng
-    for _ in range(ctx.n(100000, 5000000)):
+    for _ in range(ctx.n(250000, 5000000)):
         theo, obs, tol, ttype, grid = gen_lists(rng)
         check_matching(ctx, st, pt, theo, obs, tol, ttype, grid, rng)
-    for _ in range(ctx.n(6000, 200000)):
+    for _ in range(ctx.n(20000, 200000)):
         fragment_level(ctx, st, pt, rng)
 
 
